@@ -92,6 +92,7 @@ func (s *Store) ProposeCommand(req *pb.RaftCmdRequest) (*pb.RaftCmdResponse, err
 	if prop == nil {
 		return nil, fmt.Errorf("raftstore: command pipeline unavailable")
 	}
+	s.command.bindProposal(id, req.Header)
 	if err := s.router.SendCommand(peer.ID(), req); err != nil {
 		s.command.removeProposal(id)
 		return nil, err
